@@ -322,6 +322,7 @@ def _lods_(i, fmap, l):
     counter, s = (ecx, esi) if i.misc["adrsz"] else (rcx, rsi)
     loc = {1: al, 2: ax, 4: eax, 8: rax}[l]
     src = fmap(mem(s, l * 8))
+    loc, src = _r32_zx64(loc, src)
     if i.misc["rep"]:
         cnt = fmap(counter)
         fmap[loc] = tst(cnt == 0, fmap(loc), src)
